@@ -93,8 +93,8 @@ static Val gen_value(Rng& r, const Opt& o) {
     switch (o.kind) {
     case BOOL: { bool b = r.chance(0.5); static const char* T[] = {"true", "1", "on", "yes"}; static const char* F[] = {"false", "0", "off", "no"};
                  v.token = b ? T[r.range(0, 3)] : F[r.range(0, 3)]; v.repr = ri(b); break; }
-    case STR: { static const char* names[] = {"a.dat", "some/dir/file.txt", "x_y-z.h5", "f.hdf5", "t.txt", "data.set.v2"}; v.token = names[r.range(0, 5)];
-                if (o.domain == 21) { static const char* outs[] = {"res.h5", "dir/out.hdf5", "plain.png", "o.h5"}; v.token = outs[r.range(0, 3)]; }
+    case STR: { static const char* names[] = {"a.dat", "some/dir/file.txt", "x_y-z.h5", "f.hdf5", "t.txt", "data.set.v2", "in put/Z file.dat", "a b.txt"}; v.token = names[r.range(0, 7)];
+                if (o.domain == 21) { static const char* outs[] = {"res.h5", "dir/out.hdf5", "plain.png", "o.h5", "my run.h5", "dir with blank/o.hdf5"}; v.token = outs[r.range(0, 5)]; }
                 v.repr = v.token; break; }
     case U32: { long long x;
         switch (o.domain) { case 19: x = r.range(0, 5000); break; case 22: x = r.range(1, 100000); break; case 26: x = r.range(0, 3); break;
@@ -191,6 +191,8 @@ static void mode_c20() {
         std::vector<Placement> P; std::vector<std::string> args; std::string cfg;
         build_inputs(r, T, P, args, cfg, use_alias, use_compat, r.uni(0.05, 0.6));
         std::string cfgname = "c20_" + std::to_string(c) + ".cfg";
+        // a third of the files end without a final newline (hand-edited files often do): the last line counts like any other
+        if (c % 3 == 2 && !cfg.empty() && cfg.back() == '\n') { cfg.pop_back(); M.ev("config_files_without_final_newline"); }
         { std::ofstream f(cfgname); f << cfg; }
         args.insert(args.begin(), {"--config", cfgname});
         { std::string d = "c20"; for (auto& a : args) d += " " + a; M.begin_case(c, d.substr(0, 600)); }
@@ -230,6 +232,8 @@ static void mode_c13() {
         build_inputs(r, T, P, args, cfg, c % 4 == 0, c % 5 == 0, r.uni(0.05, 0.7));
         // alpha0 xor synchrotron frequency is the normal use; keep both in some cases
         std::string cfgname = "c13_" + std::to_string(c) + ".cfg", saved = "c13_" + std::to_string(c) + ".saved.cfg";
+        // a third of the files end without a final newline (hand-edited files often do): the last line counts like any other
+        if (c % 3 == 2 && !cfg.empty() && cfg.back() == '\n') { cfg.pop_back(); M.ev("config_files_without_final_newline"); }
         { std::ofstream f(cfgname); f << cfg; }
         args.insert(args.begin(), {"--config", cfgname});
         { std::string d = "c13"; for (auto& a : args) d += " " + a; M.begin_case(c, d.substr(0, 600)); }
@@ -260,6 +264,47 @@ static void mode_c13() {
                 if (nm == "alpha0") cls = fs_set ? "alpha0_overridden" : "alpha0_in_use";
                 if (P[&t - &T[0]].alias && !(P[&t - &T[0]].where & 1)) cls = std::string("alias:") + t.alias;
                 M.violation("C13:lost:" + cls, "option value after reloading the saved .cfg differs from the original invocation", d.str());
+            }
+        }
+        // second generation (a third of the cases): the run is repeated from its own saved file with a few options changed on the command
+        // line; the configuration is saved again under the same name (as main does when the output is not redirected) and must then
+        // describe the *second* invocation
+        if (ok2 && c % 3 == 1) {
+            std::vector<std::string> args2 = {"--config", saved};
+            std::vector<std::string> vec2;
+            int nover = (int)r.range(1, 3);
+            for (int k = 0; k < nover; k++) {
+                const Opt& o = T[r.u64() % T.size()];
+                if (!strcmp(o.name, "config") || !strcmp(o.name, "run_anyway") || !strcmp(o.name, "output")) continue;
+                bool dup = false; for (auto& a : args2) if (a == std::string("--") + o.name) dup = true;
+                for (auto& a : vec2) if (a == std::string("--") + o.name) dup = true;
+                if (dup) continue;
+                Val v = gen_value(r, o);
+                if (o.kind == VEC) { vec2.push_back(std::string("--") + o.name); for (auto& t : v.tokens) vec2.push_back(t); }
+                else { args2.push_back(std::string("--") + o.name); args2.push_back(v.token); }
+            }
+            args2.insert(args2.end(), vec2.begin(), vec2.end());
+            ProgramOptions po3; std::string err3;
+            if (parse_with(po3, args2, err3)) {
+                auto before2 = all_getters(po3, T);
+                po3.save(saved);
+                ProgramOptions po4; std::string err4;
+                bool ok4 = parse_with(po4, {"--config", saved}, err4);
+                M.ev("second_generation_cycles");
+                if (!ok4) { vh::J d; d.s("error", err4); M.violation("C13:saved_cfg_rejected", "the saved configuration file cannot be parsed back", d.str()); }
+                else {
+                    auto after2 = all_getters(po4, T);
+                    bool fs2 = before2["SynchrotronFrequency"] != rf(0);
+                    for (auto& t : T) {
+                        std::string nm = t.name;
+                        if (nm == "run_anyway" || before2[nm] == after2[nm]) continue;
+                        if (nm == "alpha0" && fs2 && after2[nm] == rf(0)) continue;
+                        vh::J d; d.s("option", nm).s("second_invocation", before2[nm]).s("reloaded", after2[nm]);
+                        { std::string a; for (auto& x : args2) a += x + " "; d.s("args", a.substr(0, 500)); }
+                        M.violation("C13:second_generation:stale_cfg", "after a rerun from the saved .cfg with options changed on the command line the .cfg saved again does not describe the second invocation", d.str());
+                        break;
+                    }
+                }
             }
         }
         unlink(cfgname.c_str()); unlink(saved.c_str());
